@@ -190,7 +190,98 @@ def dt_fields(eng, v):
     return days, hour, minute, second, micro
 
 
+FIELD_NAMES = ("year", "month", "day", "hour", "minute", "second", "microsecond")
+WEEKDAYS = ["Monday", "Tuesday", "Wednesday", "Thursday", "Friday", "Saturday", "Sunday"]
+MONTHS = ["January", "February", "March", "April", "May", "June", "July", "August", "September", "October", "November",
+          "December"]
+
+
+def _pad(eng, v, width):
+    from .strmodels import str_method
+    s = eng.int_to_str(v) if is_sym(v) else str(v)
+    return str_method(eng, s, "zfill", [width], {}) if width else s
+
+
+def day_of_year(eng, v):
+    y, m, d = v.fields[0], v.fields[1], v.fields[2]
+    jan1 = m_datetime(eng, y, 1, 1)
+    return eng.op("Add", eng.op("Sub", eng.op("FloorDiv", v.us, DAY_US), eng.op("FloorDiv", jan1.us, DAY_US)), 1)
+
+
+def strftime(eng, v, fmt):
+    """C-locale strftime for the codes numbers_parser uses"""
+    if is_sym(fmt):
+        raise Unsupported("symbolic strftime format")
+    f = v.fields if v.fields is not None else None
+    if f is None:
+        days, hour, minute, second, micro = dt_fields(eng, v)
+        y, mo, d = civil_from_days(eng, days)
+    else:
+        y, mo, d, hour, minute, second, micro = f
+    out = []
+    i = 0
+    while i < len(fmt):
+        c = fmt[i]
+        if c != "%":
+            out.append(c)
+            i += 1
+            continue
+        i += 1
+        nopad = False
+        if fmt[i] == "-":
+            nopad = True
+            i += 1
+        code = fmt[i]
+        i += 1
+        if code == "Y":
+            out.append(_pad(eng, y, 0 if nopad else 4) if False else _pad(eng, y, 0))   # glibc: no padding for %Y
+        elif code == "y":
+            out.append(_pad(eng, eng.op("Mod", y, 100), 0 if nopad else 2))
+        elif code == "m":
+            out.append(_pad(eng, mo, 0 if nopad else 2))
+        elif code == "d":
+            out.append(_pad(eng, d, 0 if nopad else 2))
+        elif code == "H":
+            out.append(_pad(eng, hour, 0 if nopad else 2))
+        elif code == "I":
+            h12 = eng.op("Mod", hour, 12)
+            if eng.truth(eng.cmp("Eq", h12, 0)):
+                h12 = 12
+            out.append(_pad(eng, h12, 0 if nopad else 2))
+        elif code == "M":
+            out.append(_pad(eng, minute, 0 if nopad else 2))
+        elif code == "S":
+            out.append(_pad(eng, second, 0 if nopad else 2))
+        elif code == "p":
+            out.append("AM" if eng.truth(eng.cmp("Lt", hour, 12)) else "PM")
+        elif code in ("A", "a"):
+            wd = eng.concretize_int(eng.op("Mod", eng.op("FloorDiv", v.us, DAY_US), 7), "weekday")
+            out.append(WEEKDAYS[wd] if code == "A" else WEEKDAYS[wd][:3])
+        elif code in ("B", "b"):
+            m_ = eng.concretize_int(mo, "month")
+            out.append(MONTHS[m_ - 1] if code == "B" else MONTHS[m_ - 1][:3])
+        elif code == "W":
+            if f is None:
+                raise Unsupported("%W without fields")
+            # week of year, Monday first: (yday + 7 - weekday) // 7 with yday 0-based, weekday Monday=0
+            yday0 = eng.op("Sub", day_of_year(eng, v), 1)
+            wd = eng.op("Mod", eng.op("FloorDiv", v.us, DAY_US), 7)
+            out.append(_pad(eng, eng.op("FloorDiv", eng.op("Sub", eng.op("Add", yday0, 7), wd), 7), 0 if nopad else 2))
+        elif code == "%":
+            out.append("%")
+        else:
+            raise Unsupported("strftime code %" + code)
+    return eng.concat_str(out)
+
+
+class _TimeTuple:
+    def __init__(self, yday):
+        self.tm_yday = yday
+
+
 def dt_attr(eng, v, name):
+    if v.fields is not None and name in FIELD_NAMES:
+        return v.fields[FIELD_NAMES.index(name)]
     if name in ("hour", "minute", "second", "microsecond"):
         days, hour, minute, second, micro = dt_fields(eng, v)
         return {"hour": hour, "minute": minute, "second": second, "microsecond": micro}[name]
@@ -248,6 +339,17 @@ class DTMethod:
             return eng.op("Add", eng.op("Mod", days, 7), 1)
         if n == "toordinal":
             return eng.op("Add", eng.op("FloorDiv", _need(v, "datetime"), DAY_US), 1)
+        if n == "strftime":
+            return strftime(eng, v, args[0])
+        if n == "replace":
+            if v.fields is None:
+                raise Unsupported("replace on a datetime not built from fields")
+            f = list(v.fields)
+            for k, val in kw.items():
+                f[FIELD_NAMES.index(k)] = val
+            return m_datetime(eng, *f)
+        if n == "timetuple":
+            return _TimeTuple(day_of_year(eng, v))
         raise Unsupported("datetime method " + n)
 
 
@@ -282,7 +384,7 @@ def m_datetime(eng, year, month=None, day=None, hour=0, minute=0, second=0, micr
         raise ValueError("day is out of range for month")
     secs = eng.op("Add", eng.op("Add", eng.op("Mult", hour, 3600), eng.op("Mult", minute, 60)), second)
     us = eng.op("Add", eng.op("Add", eng.op("Mult", days, DAY_US), eng.op("Mult", secs, US)), microsecond)
-    return SymDT(us)
+    return SymDT(us, fields=(year, month, day, hour, minute, second, microsecond))
 
 
 def install(eng):
